@@ -466,6 +466,20 @@ fn cure_grid() -> Vec<(&'static str, &'static str, String, String)> {
         ("function without variables; a companion's enumeration variable is named like the undeclared name", "P0015", "FUNCTION cg_f : INT\ncg_f := cg_missing;\nEND_FUNCTION\n".to_string(), format!("{}PROGRAM cg_owner\nVAR\ncg_missing : cg_level := cg_warn;\nEND_VAR\nEND_PROGRAM\n", fb_level)),
         ("program without variables; a companion's variable is named like the undeclared target", "P0015", "PROGRAM cg_p\ncg_q := 1;\nEND_PROGRAM\n".to_string(), format!("{}FUNCTION_BLOCK cg_owner\nVAR\ncg_q : cg_level := cg_info;\ncg_p : INT;\nEND_VAR\nEND_FUNCTION_BLOCK\n", fb_level)),
         ("function block without variables; a companion function is named like the undeclared name", "P0015", "FUNCTION_BLOCK cg_b\ncg_g := cg_g + 1;\nEND_FUNCTION_BLOCK\n".to_string(), "FUNCTION cg_g : INT\nVAR_INPUT\ncg_i : INT;\nEND_VAR\ncg_g := cg_i;\nEND_FUNCTION\n".to_string()),
+        // a constant global with a non-constant external: a companion configuration that has a PLAIN
+        // global of the same name (at configuration or at resource level) cures nothing
+        (
+            "constant global; a companion configuration has a plain global of that name",
+            "P0018",
+            "FUNCTION_BLOCK cg_fb\nVAR_EXTERNAL\ncg_lim : INT;\nEND_VAR\nEND_FUNCTION_BLOCK\nPROGRAM cg_prog\nVAR\ncg_i : cg_fb;\nEND_VAR\nEND_PROGRAM\nCONFIGURATION cg_conf\nVAR_GLOBAL CONSTANT\ncg_lim : INT := 5;\nEND_VAR\nRESOURCE cg_res ON cg_cpu\nPROGRAM cg_inst : cg_prog;\nEND_RESOURCE\nEND_CONFIGURATION\n".to_string(),
+            "PROGRAM cg_prog2\nVAR\ncg_y : INT;\nEND_VAR\ncg_y := 1;\nEND_PROGRAM\nCONFIGURATION cg_conf2\nVAR_GLOBAL\ncg_lim : INT := 1;\nEND_VAR\nRESOURCE cg_res2 ON cg_cpu\nPROGRAM cg_inst2 : cg_prog2;\nEND_RESOURCE\nEND_CONFIGURATION\n".to_string(),
+        ),
+        (
+            "constant global; a companion configuration has a plain global of that name in its resource",
+            "P0018",
+            "FUNCTION_BLOCK cg_fb\nVAR_EXTERNAL\ncg_lim : INT;\nEND_VAR\nEND_FUNCTION_BLOCK\nPROGRAM cg_prog\nVAR\ncg_i : cg_fb;\nEND_VAR\nEND_PROGRAM\nCONFIGURATION cg_conf\nVAR_GLOBAL CONSTANT\ncg_lim : INT := 5;\nEND_VAR\nRESOURCE cg_res ON cg_cpu\nPROGRAM cg_inst : cg_prog;\nEND_RESOURCE\nEND_CONFIGURATION\n".to_string(),
+            "PROGRAM cg_prog2\nVAR\ncg_y : INT;\nEND_VAR\ncg_y := 1;\nEND_PROGRAM\nCONFIGURATION cg_conf2\nRESOURCE cg_res2 ON cg_cpu\nVAR_GLOBAL\ncg_lim : INT := 1;\nEND_VAR\nPROGRAM cg_inst2 : cg_prog2;\nEND_RESOURCE\nEND_CONFIGURATION\n".to_string(),
+        ),
         ("unknown type that is a function block elsewhere", "P0022", "FUNCTION_BLOCK cg_user\nVAR\ncg_v : cg_missing;\nEND_VAR\nEND_FUNCTION_BLOCK\n".to_string(), "FUNCTION_BLOCK cg_owner\nVAR\ncg_missing : INT;\nEND_VAR\nEND_FUNCTION_BLOCK\n".to_string()),
     ]
 }
